@@ -39,15 +39,23 @@ def plan(tier, seed):
 
 
 class Collector:
-    def __init__(self, channel, sink):
+    def __init__(self, channel, sink, late=None):
         self.channel = channel
         self.sink = sink
+        self.closed = False
+        self.late = late
 
     def __call__(self, data):
+        if self.closed:
+            # a stream that was replaced and closed (set stdout_stream.*): what is handed to it now is lost, as it
+            # is with a closed FileStream
+            if self.late is not None:
+                self.late[(data['pid'], data['name'], self.channel)] += len(data['data'])
+            return
         self.sink[(data['pid'], data['name'], self.channel)].append(data['data'])
 
     def close(self):
-        pass
+        self.closed = True
 
 
 def run_case(spec):
@@ -94,6 +102,7 @@ def _scenario(spec, rnd, d, logdir, res):
         return orig_call(self, fd, events)
     redirector.Redirector.Handler.__call__ = counted
     sink = collections.defaultdict(list)
+    late = collections.Counter()
     nwriters = rnd.randint(1, 6)
     scripts = []
     closer = rnd.randrange(nwriters)
@@ -182,9 +191,17 @@ def _scenario(spec, rnd, d, logdir, res):
             for p in w.processes.values():
                 writers[w.name] = p.pid
         # sibling generations while the writers write
+        switch_at = rnd.randint(1, 3)
         for g in range(spec['gens']):
             if hb['blocked'] is not None:
                 break
+            if g == switch_at:
+                # the stream of a channel of a running writer is reconfigured (what `set w stdout_stream.* ...`
+                # does): from now on its output belongs to the new stream, the old one is closed
+                wsw = watchers[0]
+                for ch in ('stdout', 'stderr'):
+                    wsw.set_opt('%s_stream.stream' % ch, Collector(ch, sink, late))
+                info['switched'] = wsw.name
             act = rnd.choice(['restart', 'reload', 'kill9', 'restart'])
             try:
                 if act == 'restart':
@@ -268,7 +285,12 @@ def _scenario(spec, rnd, d, logdir, res):
             if wrong_label:
                 res.violation('C17/channel-mislabelled', 'data of worker %d labelled %s reached the %s stream'
                               % (pid, wrong_label[0][1], wrong_label[0][2]))
-            if got != want:
+            if got != want and late.get((pid, ch, ch)):
+                res.violation('C17/output-delivered-to-replaced-stream',
+                              'worker %d %s: after the stream of the channel was replaced (set %s_stream.*), %d bytes '
+                              'were still handed to the old, closed stream; the configured stream got %d of %d bytes'
+                              % (pid, ch, ch, late[(pid, ch, ch)], len(got), len(want)))
+            elif got != want:
                 kind = 'loss' if len(got) < len(want) else ('duplication-or-extra' if len(got) > len(want) else 'corruption')
                 pos = next((j for j in range(min(len(got), len(want))) if got[j] != want[j]), min(len(got), len(want)))
                 res.violation('C17/stream-differs:%s' % kind, 'worker %d %s: wrote %d bytes, stream got %d; first '
